@@ -1,3 +1,5 @@
 pub mod edit;
+pub mod h5e;
+pub mod h5e_decoder;
 pub mod select;
 pub mod tree;
